@@ -776,10 +776,14 @@ class _HistRun:
             if exp is not None:
                 self.check_str('address()', got, exp)
         elif op == 'address_c':
-            # Key.address(compressed=X) assigns self.compressed = X: the flag is state of the object
+            # Key.address(compressed=X) is a query: it returns the address of the requested form and leaves the
+            # key (and everything exported afterwards) as it was
+            keep = m.compressed
             m.compressed = ev[1]
+            exp = m.address()
+            m.compressed = keep
             got = call(lambda: k.address(compressed=ev[1]))
-            self.check_str('address(compressed=)', got, m.address())
+            self.check_str('address(compressed=)', got, exp)
         elif op == 'netchg':
             got = call(lambda: k.network_change(ev[1]))
             m.net = ev[1]
@@ -964,8 +968,9 @@ def run(ctx):
         cfg = {'cls': 'HDKey', 'd': '%x' % hsecret[0], 'net': net, 'compressed': True, 'wt': wt, 'ms': ms,
                'chain': chains[3], 'depth': 3, 'fp': fps[3], 'child': (1 << 31) + 5}
         al = hd_alphabet(net, not q)
-        if q:
-            hcases += [{'cfg': cfg, 'first': [e], 'alphabet': al, 'L': L} for e in al]
+        if q or (net, wt, ms) not in hdcfg[:2]:
+            # length 3 (thorough) for the first two configurations, length 2 for the others
+            hcases += [{'cfg': cfg, 'first': [e], 'alphabet': al, 'L': 2} for e in al]
         else:
             hcases += [{'cfg': cfg, 'first': [e, f], 'alphabet': al, 'L': L} for e in al for f in al]
             hcases += [{'cfg': cfg, 'first': [e], 'alphabet': al, 'L': 1} for e in al]
